@@ -31,7 +31,53 @@ func (c *countReader) Read(p []byte) (int, error) {
 	return n, err
 }
 
+// cutReader delivers data in short reads ending at the given positions; in every gap
+// between two reads `between` runs (another connection decoding in the meantime).
+type cutReader struct {
+	data    []byte
+	cuts    []int
+	pos     int
+	between func()
+}
+
+func (c *cutReader) Read(p []byte) (int, error) {
+	if c.pos >= len(c.data) {
+		return 0, io.EOF
+	}
+	end := len(c.data)
+	for _, k := range c.cuts {
+		if k > c.pos {
+			end = k
+			break
+		}
+	}
+	if end > len(c.data) {
+		end = len(c.data)
+	}
+	if c.pos > 0 && c.between != nil {
+		c.between()
+	}
+	n := copy(p, c.data[c.pos:end])
+	c.pos += n
+	return n, nil
+}
+
+// delivery plan of the next runOne: nil = the whole stream in one read
+type plan struct {
+	cuts  []int
+	other []byte // a valid frame decoded on another connection in every gap
+}
+
+var curPlan *plan
+
 const frameCap = 1024 * 1024
+
+func trunc(s string, n int) string {
+	if len(s) > n {
+		return s[:n] + "…"
+	}
+	return s
+}
 
 func classify(err error, id int) string {
 	if id == 20 {
@@ -102,6 +148,21 @@ func runOne(c *vhlib.Ctx, stream []byte, compare bool, tag string) {
 		opname = "decx"
 	}
 	op := opname + " " + vhlib.Hex(stream)
+	pl := curPlan
+	curPlan = nil
+	if pl != nil && compare {
+		cs := make([]string, len(pl.cuts))
+		for i, k := range pl.cuts {
+			cs[i] = fmt.Sprint(k)
+		}
+		oh := "-"
+		if len(pl.other) > 0 {
+			oh = vhlib.Hex(pl.other)
+		}
+		op = "decs " + vhlib.Hex(stream) + " " + strings.Join(cs, ",") + " " + oh
+	} else {
+		pl = nil
+	}
 	var L uint32
 	id, sub := -1, -1
 	if len(stream) >= 4 {
@@ -118,7 +179,44 @@ func runOne(c *vhlib.Ctx, stream []byte, compare bool, tag string) {
 		shape = fmt.Sprintf("id=20:sub=%d", sub)
 	}
 
-	cr := &countReader{r: bytes.NewReader(stream)}
+	var src io.Reader = bytes.NewReader(stream)
+	var otherAlloc uint64 // allocated by the other connection in the gaps: not this frame's
+	if pl != nil {
+		cut := &cutReader{data: stream, cuts: pl.cuts}
+		if len(pl.other) > 0 {
+			// what the other connection must decode to, established before this call
+			var want string
+			if m0, e0 := protocol.Read(bufio.NewReader(bytes.NewReader(pl.other)), nil); e0 == nil && m0 != nil {
+				want = wirecanon.Canon(m0)
+				if pm, ok := m0.(protocol.Piece); ok {
+					protocol.PutBuffer(pm.Data)
+				}
+			}
+			cut.between = func() {
+				var b0, b1 runtime.MemStats
+				runtime.ReadMemStats(&b0)
+				defer func() {
+					runtime.ReadMemStats(&b1)
+					otherAlloc += b1.TotalAlloc - b0.TotalAlloc
+				}()
+				var got string
+				pp := vhlib.Recover(func() {
+					m1, e1 := protocol.Read(bufio.NewReader(bytes.NewReader(pl.other)), nil)
+					if e1 == nil && m1 != nil {
+						got = wirecanon.Canon(m1)
+						if pm, ok := m1.(protocol.Piece); ok {
+							protocol.PutBuffer(pm.Data)
+						}
+					}
+				})
+				if pp != "" || got != want {
+					c.Violate("interference:other-connection", fmt.Sprintf("a frame decoded on a second connection between two reads of the first gave %q, alone %q %s", got, want, pp), []string{op})
+				}
+			}
+		}
+		src = cut
+	}
+	cr := &countReader{r: src}
 	br := bufio.NewReaderSize(cr, 4096)
 	var m protocol.Message
 	var err error
@@ -126,7 +224,7 @@ func runOne(c *vhlib.Ctx, stream []byte, compare bool, tag string) {
 	runtime.ReadMemStats(&ms0)
 	p := vhlib.Recover(func() { m, err = protocol.Read(br, nil) })
 	runtime.ReadMemStats(&ms1)
-	alloc := ms1.TotalAlloc - ms0.TotalAlloc
+	alloc := ms1.TotalAlloc - ms0.TotalAlloc - otherAlloc
 	consumed := cr.n - br.Buffered()
 
 	var obs string
@@ -150,6 +248,39 @@ func runOne(c *vhlib.Ctx, stream []byte, compare bool, tag string) {
 		obs = "x"
 	}
 	c.Emit(op, obs)
+	if pl != nil {
+		// the outcome must not depend on how the bytes were delivered nor on what other
+		// connections decode meanwhile: same stream, one read, nothing in between
+		var m2 protocol.Message
+		var err2 error
+		cr2 := &countReader{r: bytes.NewReader(stream)}
+		br2 := bufio.NewReaderSize(cr2, 4096)
+		p2 := vhlib.Recover(func() { m2, err2 = protocol.Read(br2, nil) })
+		obs2 := "panic"
+		switch {
+		case p2 != "":
+		case err2 != nil:
+			cs := fmt.Sprint(cr2.n - br2.Buffered())
+			if id == 20 {
+				cs = "?"
+			}
+			obs2 = fmt.Sprintf("err %s c=%s", classify(err2, id), cs)
+		case m2 == nil:
+			obs2 = "nilnil"
+		default:
+			obs2 = fmt.Sprintf("msg %s c=%d", wirecanon.Canon(m2), cr2.n-br2.Buffered())
+			if pm, ok := m2.(protocol.Piece); ok {
+				protocol.PutBuffer(pm.Data)
+			}
+		}
+		if obs2 != obs {
+			kind := "delivery:cut-dependent:"
+			if len(pl.other) > 0 {
+				kind = "delivery:cut-or-neighbour-dependent:"
+			}
+			c.Violate(kind+shape, fmt.Sprintf("delivered in short reads: %s; delivered whole: %s", trunc(obs, 200), trunc(obs2, 200)), []string{op})
+		}
+	}
 
 	// ---- property oracle (restates C04, independent of the model) ----
 	if len(stream) >= 4 {
@@ -211,6 +342,13 @@ func runOne(c *vhlib.Ctx, stream []byte, compare bool, tag string) {
 	res := "err"
 	if err == nil && m != nil {
 		res = "msg"
+		if pm, ok := m.(protocol.Piece); ok && len(stream)%2 == 0 {
+			// the peer releases the block once stored; the next frames re-use it
+			protocol.PutBuffer(pm.Data)
+		}
+	}
+	if pl != nil {
+		tag += "/cut"
 	}
 	c.Count(tag+"/"+shape+"/"+res, op, len(stream) > 4)
 }
@@ -619,6 +757,34 @@ func sweep(c *vhlib.Ctx, r *vhlib.Rand, maxL int) {
 	}
 }
 
+// randPlan: short reads ending inside the length prefix, inside the fixed fields and at random
+// places, with a frame of another connection decoded in every gap (shared state between
+// connections - scratch buffers, the block pool - must not leak from one to the other)
+func randPlan(r *vhlib.Rand) *plan {
+	pl := &plan{}
+	pos := 0
+	for n := 1 + r.Intn(4); n > 0; n-- {
+		pos += r.PickInt(1, 1, 2, 3, 1, 2, 4, 5, 6, 7, 9, 13, 1+r.Intn(40), 1+r.Intn(5000))
+		pl.cuts = append(pl.cuts, pos)
+	}
+	switch r.Intn(6) {
+	case 0:
+	case 1:
+		pl.other = frame(5, 4, []byte{0, 1, 0, 0}) // Have 65536
+	case 2:
+		pl.other = frame(13, 6, []byte{0xde, 0xad, 0xbe, 0xef, 0, 0, 0x40, 0, 0, 0, 0x40, 0})
+	case 3:
+		pl.other = frame(3, 9, []byte{0x1a, 0xe1})
+	case 4:
+		// short block of 100..999 bytes (last block of a torrent)
+		n := 100 + r.Intn(900)
+		pl.other = frame(uint32(9+n), 7, append([]byte{0, 0, 0, 9, 0, 0, 0x80, 0}, r.Bytes(n)...))
+	case 5:
+		pl.other = frame(uint32(9+16384), 7, append([]byte{0, 0, 0, 1, 0, 0, 0, 0}, r.Bytes(16384)...))
+	}
+	return pl
+}
+
 func main() {
 	c := vhlib.Init("c04")
 	defer c.Close()
@@ -629,6 +795,19 @@ func main() {
 			f := strings.Fields(l)
 			if len(f) == 2 && (f[0] == "dec" || f[0] == "decx") {
 				runOne(c, vhlib.UnHex(f[1]), f[0] == "dec", "replay")
+			}
+			if len(f) == 4 && f[0] == "decs" {
+				pl := &plan{}
+				for _, k := range strings.Split(f[2], ",") {
+					var v int
+					fmt.Sscan(k, &v)
+					pl.cuts = append(pl.cuts, v)
+				}
+				if f[3] != "-" {
+					pl.other = vhlib.UnHex(f[3])
+				}
+				curPlan = pl
+				runOne(c, vhlib.UnHex(f[1]), true, "replay")
 			}
 		}
 		return
@@ -649,7 +828,11 @@ func main() {
 	}
 	sweep(c, c.R, maxL)
 	for i := 0; i < c.N; i++ {
+		if c.R.Chance(20) {
+			curPlan = randPlan(c.R)
+		}
 		genCase(c, c.R)
+		curPlan = nil
 		if i%2000 == 1999 {
 			runtime.GC()
 		}
